@@ -4,7 +4,7 @@ from ..core.model import Program
 from ..core.report import CheckContext
 from ..core.resolve import Resolver
 from ..rules import bookkeeping as bk
-from .common import run_control
+from .common import run_control, generic_rules
 
 
 def _funcs(p, mods):
@@ -13,6 +13,7 @@ def _funcs(p, mods):
 
 def analyse(ctx: CheckContext, p: Program):
     r = Resolver(p)
+    generic_rules(ctx, p, r, "C03")
     bk.check_wrap(ctx, p, r, _funcs(p, ("OpenPinch.analysis.utility_targeting", "OpenPinch.analysis.gcc_manipulation",
                                         "OpenPinch.analysis.indirect_integration_entry", "OpenPinch.analysis.direct_integration_entry")))
     bk.check_assignment_booking(ctx, p, r)
